@@ -290,6 +290,26 @@ pub fn check_world(spec: &RichSpec, l: &mut Local) -> Result<(), String> {
                     return Err(format!("{}: accepted {what} in account slot {idx} ({kind:?})", ent.name));
                 }
             }
+            // a WHOLE foreign position: the account of a position of another pool together with its own token account (held by the same
+            // owner), with and without liquidity
+            if *kind == SlotKind::Position {
+                if let Some((tidx, _, _)) = ent.slots.iter().find(|(_, k, _)| *k == SlotKind::PositionToken) {
+                    for (what, fp) in [("with liquidity", r.pos_other_pool), ("empty", r.pos_other_pool_empty), ("empty, token extensions", r.pos_other_pool_empty_te)] {
+                        let f = &r.w.positions[fp];
+                        if r.w.positions.iter().any(|p| p.position == ent.ix.accounts[*idx].pubkey && p.pool == f.pool) {
+                            continue;
+                        }
+                        let mut ix = ent.ix.clone();
+                        ix.accounts[*idx].pubkey = f.position;
+                        ix.accounts[*tidx].pubkey = f.token_account;
+                        let mut wc = r.w.clone();
+                        l.count("substituted/WholeForeignPosition");
+                        if wc.exec(&ix).ok() {
+                            return Err(format!("{}: accepted a position of another pool ({what}) together with its own token account in slots {idx} / {tidx}", ent.name));
+                        }
+                    }
+                }
+            }
             if matches!(kind, SlotKind::TokenProgram | SlotKind::MemoProgram | SlotKind::SystemProgram) {
                 continue;
             }
